@@ -213,6 +213,12 @@ def warnings_audible(ctx, rule, scope, floor_calls=1):
 
 def run(ctx):
     rep = ctx.rep
+    rep.rule("C22.R9", "the Jacobian approximation is a function of ITS arguments (point, method, step eps): no intermediate of approx_fprime / fsolve is remembered across calls (dictionary, attribute, closure or decorator memo) under a key that omits an argument it depends on - the step width above all", 0)
+    from . import c26 as _c26
+    _sc = lambda rel: rel in (FS, "cardillo/math/approx_fprime.py")
+    _c26.dict_memos(ctx, "C22.R9", _sc)
+    _c26.attribute_memos(ctx, "C22.R9", _sc)
+    _c26.handmade_memo(ctx, "C22.R9", _sc)
     rep.rule("C22.R8", "fsolve's error measure divides the residual by the tolerance scale COMPONENT-WISE (f / scale under the norm): every equation is judged by its own atol + rtol |f0_i|, none by the scale of the worst-scaled one", 2)
     componentwise_scale(ctx)
     rep.rule("C22.R7", "the non-convergence warning of fsolve is audible: it is not issued under a warnings filter that the helper itself installed", 1)
@@ -654,4 +660,13 @@ MUTANTS += [
     dict(id="c22-r8-seed", canary=True, what="[seeded by sub-agent] fsolve measures ||f|| / ||scale|| instead of ||f / scale|| / sqrt(n) ('norm of the scale computed once')", file=FS,
          edits=[(FS, "    error = np.linalg.norm(f / scale) / scale.size**0.5\n    converged = error < 1\n", "    scale_norm = np.linalg.norm(scale)\n    error = np.linalg.norm(f) / scale_norm\n    converged = error < 1\n"),
                 (FS, "            error = np.linalg.norm(f / scale) / scale.size**0.5\n", "            error = np.linalg.norm(f) / scale_norm\n")], expect="C22.R8"),
+]
+
+MUTANTS += [
+    dict(id="c22-r9-seed", canary=True, what="[seeded by sub-agent] approx_fprime caches its dense step matrix across calls in a module-level dict keyed by the problem size only (eps not in the key)", file='cardillo/math/approx_fprime.py',
+         edits=[('cardillo/math/approx_fprime.py', "\ndef approx_fprime(", '\n_steps = {}\n\n\ndef _step_matrix(m, eps):\n    key = m\n    if key not in _steps:\n        _steps[key] = np.diag(eps * np.ones(m))\n    return _steps[key]\n\n\ndef approx_fprime('), ('cardillo/math/approx_fprime.py', '    h = np.diag(eps * np.ones(m))\n', "    h = _step_matrix(m, eps)\n")], expect="C22.R9"),
+]
+NEUTRAL += [
+    dict(id="c22-n-r9", canary=True, what="approx_fprime caches its dense step matrix keyed by (m, eps)", file='cardillo/math/approx_fprime.py',
+         edits=[('cardillo/math/approx_fprime.py', "\ndef approx_fprime(", '\n_steps = {}\n\n\ndef _step_matrix(m, eps):\n    key = (m, eps)\n    if key not in _steps:\n        _steps[key] = np.diag(eps * np.ones(m))\n    return _steps[key]\n\n\ndef approx_fprime('), ('cardillo/math/approx_fprime.py', '    h = np.diag(eps * np.ones(m))\n', "    h = _step_matrix(m, eps)\n")]),
 ]
